@@ -18,7 +18,7 @@ def run_all():
     from vflib import facts as F
     try:
         for pid in sorted(props.PROPS):
-            obs, nb, _ = vfmain.run_property(pid, 'quick', cache)
+            obs, nb, _ = vfmain.run_property(pid, os.environ.get('VF_TIER', 'quick'), cache)
             out[pid] = {o.key: o.detail for o in obs if o.status == 'violated'}
     except F.FactsError as ex:
         return {'_compile': {'tree-does-not-compile': str(ex)[-500:]}}
@@ -29,6 +29,7 @@ def main():
     import queue
     args = [a for a in sys.argv[1:] if not a.startswith('--')]
     jobs = 4
+    # VF_TIER=thorough adds the MIR rules
     SUB = 'refactors' if '--refactors' in sys.argv else 'seeded'
     seeds = args or sorted(os.listdir(os.path.join(VERIF, SUB)))
     workers = ['/tmp/confirm%d' % i for i in range(1, jobs + 1)]
